@@ -10,6 +10,9 @@
  * activation, holds the messages"; dbus-daemon(1) <limit name="max_pending_service_starts">. */
 #include <config.h>
 #include "dbus/dbus-internals.h"
+#include <stdlib.h>
+#include <stddef.h>
+#include <string.h>
 #include VERIF_TU
 #include "../stubs/c19_act_common.c"
 static char o_ptable, o_etable, o_ctx, o_txn, o_txn2, o_conn, o_msg, o_reply, o_signal, o_registry, o_service, o_sd_service, o_sd_conn, o_timeout, o_loop, o_sitter;
@@ -22,6 +25,7 @@ struct {
   unsigned lookups, policy_checks, driver_sends, msg_refs, msg_unrefs, conn_refs, conn_unrefs, sig_refs, sig_unrefs, appended[2], inserted[2], removed[2], freed[2], released_entries,
            hooks, timeouts_new, timeouts_added, spawns, sd_dispatches, txn2_new, txn2_exec, txn2_cancel, captures, reply_unrefs;
   BusPendingActivationEntry *held[2]; _Bool spawn_argv_helper, spawn_argv_exec;
+  void *hook_data[2]; unsigned held_released[2];
   const DBusString *cmd; unsigned cmd_n; const char *cmd_piece[3];
 } G;
 /* ---- configuration / context ---- */
@@ -71,17 +75,21 @@ dbus_bool_t _dbus_hash_table_insert_string (DBusHashTable *t, char *key, void *v
 /* contract of bus_pending_activation_unref (real code walks the waiter list): last reference => timeout removed, every held entry released, counter reduced */
 void verif_stub_pending_unref (BusPendingActivation *p)
 { if (p == NULL) return; PRE(p->refcount > 0, "bus_pending_activation_unref: live object"); p->refcount -= 1; if (p->refcount > 0) return;
-  int k = KEY(p->service_name ? p->service_name : n_other); G.freed[k]++; G.released_entries += p->n_entries; p->activation->n_pending_activations -= p->n_entries;
-  if (G.map[k] == p) G.map[k] = NULL; free(p->service_name); free(p->exec); free(p->systemd_service); free(p); }
+  if (p->service_name != NULL)   /* (a half-built object without a name has no entries and is in no table) */
+    { int k = KEY(p->service_name); G.freed[k]++; G.released_entries += p->n_entries; if (G.appended[k] && p->n_entries > 0) G.held_released[k]++;   /* the entry appended by this call is among those released (each release = one message unref + one connection unref, bus_pending_activation_entry_free) */
+      p->activation->n_pending_activations -= p->n_entries; if (G.map[k] == p) G.map[k] = NULL; }
+  else PRE(p->n_entries == 0, "bus_pending_activation_unref: unnamed object holds no entries");
+  free(p->service_name); free(p->exec); free(p->systemd_service); free(p); }
 dbus_bool_t _dbus_hash_table_remove_string (DBusHashTable *t, const char *key)
 { PRE(t == (DBusHashTable *)&o_ptable && key != NULL, "_dbus_hash_table_remove_string: pending activations"); int k = KEY(key); G.removed[k]++; BusPendingActivation *p = G.map[k]; if (!p) return 0; G.map[k] = NULL; verif_stub_pending_unref (p); return 1; }
 dbus_bool_t _dbus_list_append (DBusList **list, void *data)
-{ int k = (G.map[1] && list == &G.map[1]->entries) ? 1 : 0; BusPendingActivationEntry *e = data;
+{ BusPendingActivation *owner = (BusPendingActivation *)((char *)list - offsetof(BusPendingActivation, entries));      /* the list is the `entries` member of a pending activation */
+  PRE(owner->service_name != NULL, "_dbus_list_append: waiter list of a named pending activation"); int k = KEY(owner->service_name); BusPendingActivationEntry *e = data;
   PRE(e != NULL && e->activation_message != NULL, "_dbus_list_append: a pending-activation entry"); if (nondet_bool()) return 0; G.appended[k]++; G.held[k] = e; *list = (DBusList *)e; return 1; }
 DBusTimeout *_dbus_timeout_new (int interval, DBusTimeoutHandler handler, void *data, DBusFreeFunction f) { PRE(handler == pending_activation_timed_out && data != NULL, "_dbus_timeout_new: start timeout of this pending activation"); if (nondet_bool()) return NULL; G.timeouts_new++; return (DBusTimeout *)&o_timeout; }
 dbus_bool_t _dbus_loop_add_timeout (DBusLoop *l, DBusTimeout *t) { if (nondet_bool()) return 0; G.timeouts_added++; return 1; }
 dbus_bool_t bus_transaction_add_cancel_hook (BusTransaction *t, BusTransactionCancelFunction f, void *data, DBusFreeFunction ff)
-{ PRE((t == (BusTransaction *)&o_txn || t == (BusTransaction *)&o_txn2) && f == cancel_pending && data != NULL, "bus_transaction_add_cancel_hook: cancel_pending for this pending activation"); if (nondet_bool()) return 0; G.hooks++; return 1; }
+{ PRE((t == (BusTransaction *)&o_txn || t == (BusTransaction *)&o_txn2) && f == cancel_pending && data != NULL, "bus_transaction_add_cancel_hook: cancel_pending for this pending activation"); PRE(ff == free_pending_cancel_data, "bus_transaction_add_cancel_hook: data released by free_pending_cancel_data"); if (nondet_bool()) return 0; if (G.hooks < 2) G.hook_data[G.hooks] = data; G.hooks++; return 1; }
 /* ---- systemd hand-off ---- */
 BusTransaction *bus_transaction_new (BusContext *c) { G.txn2_new++; return nondet_bool() ? (BusTransaction *)&o_txn2 : NULL; }
 dbus_bool_t bus_transaction_capture (BusTransaction *t, DBusConnection *c, DBusConnection *r, DBusMessage *m) { if (nondet_bool()) return 0; G.captures++; return 1; }
@@ -156,9 +164,14 @@ void harness (void)
   __CPROVER_assert(IMP(auto_activation && G.in.entry_found && !G.in.policy_ok && old_count < G.in.limit && !(G.in.systemd_activation && k == 1), !ret && G.appended[0] + G.appended[1] == 0 && G.spawns == 0 && G.msg_refs == 0), "post9 auto-start is subject to policy: a denied message is neither held nor does it start anything");
   __CPROVER_assert(IMP(auto_activation && (G.appended[k] > 0 || G.spawns > 0) && !(G.in.systemd_activation && k == 1), G.policy_checks == 1), "post10 policy is consulted exactly once before an auto-start message is held");
   __CPROVER_assert(IMP(replied_running, !auto_activation && G.in.active && G.appended[0] + G.appended[1] == 0 && G.spawns == 0 && A.n_pending_activations == old_count), "post11 StartServiceByName for a name that has an owner: reply only, nothing held or started (S8)");
+  if (!ret)
+    { /* the caller's transaction ends (cancelled on OOM, executed after queuing an error reply): its hooks run (real code) */
+      _Bool cancelled = nondet_bool();
+      for (int i = 0; i < 2; i++) if ((unsigned)i < G.hooks) { if (cancelled) cancel_pending (G.hook_data[i]); free_pending_cancel_data (G.hook_data[i]); }
+    }
   __CPROVER_assert(IMP(!ret && !G.was_pending[k], G.map[k] == NULL), "post12 a failed new activation leaves no half-registered pending activation behind");
-  __CPROVER_assert(IMP(!ret, G.msg_refs == G.msg_unrefs && G.conn_refs == G.conn_unrefs), "post13 a refused request keeps no reference to the message or its sender");
-  __CPROVER_assert(IMP(!ret && !G.was_pending[k] && !G.was_pending[1 - k] && G.appended[1 - k] == 0, A.n_pending_activations == old_count), "post14 a refused request leaves the pending-request counter unchanged");
+  __CPROVER_assert(IMP(!ret, G.msg_refs == G.msg_unrefs + G.held_released[k] && G.conn_refs == G.conn_unrefs + G.held_released[k] && G.held_released[k] <= 1), "post13 a refused request keeps no reference to the message or its sender once the caller's transaction has ended");
+  __CPROVER_assert(IMP(!ret && !G.was_pending[k] && !G.was_pending[1 - k] && G.appended[1 - k] == 0, A.n_pending_activations == old_count), "post14 a refused request leaves the pending-request counter unchanged once the caller's transaction has ended");
   __CPROVER_assert(IMP(G.spawns == 1 && G.in.helper, G.in.entry_has_user), "post15 system-bus (helper) activation only for service files with a User (S4)");
 #ifdef VERIF_JOIN_ATOMIC
   __CPROVER_assert(IMP(!ret && G.was_pending[k], G.map[k] == old_p && G.freed[k] == 0 && G.released_entries == 0), "post16 a joining request that fails leaves the pending activation and its earlier waiters in place (they still get their message or exactly one error)");
